@@ -209,9 +209,13 @@ def build_driver(ctx: Ctx):
         ctx.broken.append({"stream": "driver", "lean_message": (err or out)[-2000:]})
 
 
+def full_name(mod, t: str) -> str:
+    return t if t.startswith(("Proofs.", "Model.", "Props.", "Py.")) else f"{mod.NAMESPACE}.{t}"
+
+
 def audit(ctx: Ctx):
     mod = ctx.mod
-    names = [f"{mod.NAMESPACE}.{t}" for t in mod.THEOREMS]
+    names = [full_name(mod, t) for t in mod.THEOREMS]
     os.makedirs(os.path.join(LEAN, ".audit"), exist_ok=True)
     path = os.path.join(LEAN, ".audit", f"{ctx.pid}.lean")
     with open(path, "w") as f:
@@ -306,14 +310,14 @@ def write_evidence(ctx: Ctx, nviol: int, known_lines: list[str]):
     whole = any(("theorem" not in b) for b in ctx.broken)
     discharged = 0 if whole else sum(
         1 for t in mod.THEOREMS
-        if f"{mod.NAMESPACE}.{t}" in ctx.axioms and f"{mod.NAMESPACE}.{t}" not in broken_thms)
+        if full_name(mod, t) in ctx.axioms and full_name(mod, t) not in broken_thms)
     cov = {
         "obligations": obligations,
-        "discharged": discharged,
+        "discharged_count": discharged,
         "checker_cmd": f"cd lean && lake build {mod.LEAN_MODULE} && lake env lean .audit/{ctx.pid}.lean"
                        + (" && lake env leanchecker " + mod.LEAN_MODULE if not ctx.quick else ""),
         "trusted_base": BASE_TRUSTED + list(getattr(mod, "TRUSTED", [])),
-        "theorems": {t: ctx.axioms.get(f"{mod.NAMESPACE}.{t}") for t in mod.THEOREMS},
+        "theorems": {t: ctx.axioms.get(full_name(mod, t)) for t in mod.THEOREMS},
         "broken_obligations": ctx.broken,
         "generated_modules": {k: {kk: v.get(kk) for kk in ("ok", "source", "sha256", "defs", "consts")}
                               for k, v in ctx.gen_report.get("modules", {}).items()
@@ -329,6 +333,8 @@ def write_evidence(ctx: Ctx, nviol: int, known_lines: list[str]):
         "known_hits": ctx.known_hits,
         "notes": ctx.notes,
     }
+    if discharged > 0:
+        cov["discharged"] = discharged      # (schema: ≥ 1; with nothing discharged the generic counts below apply)
     cov.update(ctx.extra)
     ev = {
         "property_id": ctx.pid, "tier": ctx.tier, "seed": ctx.seed, "level": "proof",
